@@ -231,10 +231,11 @@ PRESERVE = {"copy", "to", "set_label", "generate_explainable_object_with_logical
 
 
 class Bound:
-    def __init__(self, fn, find_method=None):
+    def __init__(self, fn, find_method=None, find_function=None):
         from ..astutil import aliases
         self.fn = fn
         self.find_method = find_method or (lambda name: None)
+        self.find_function = find_function
         self.alias = aliases(fn)
         self.defs = {}
         for n in ast.walk(fn):
@@ -281,7 +282,7 @@ class Bound:
             return self.ev(self.alias[e.id], at, depth + 1)
         if isinstance(e, ast.Call):
             from ..astutil import inline_call_expr
-            inl = inline_call_expr(e, self.find_method)
+            inl = inline_call_expr(e, self.find_method, self.find_function)
             if inl is not None:
                 from ..astutil import set_parents
                 set_parents(inl)._parent = getattr(e, "_parent", None)     # the inlined body sits where the call is
@@ -366,7 +367,8 @@ def r_bound(E):
     for suffix, q in targets:
         rel, fn = pm.find_function(suffix, q)
         cname = q.split(".")[0]
-        B = Bound(fn, lambda name, _c=cname: pm.find_method(_c, name)[1])
+        B = Bound(fn, lambda name, _c=cname: pm.find_method(_c, name)[1],
+                  lambda name: pm.functions[name][1] if name in pm.functions else None)
         writes = [n for n in ast.walk(fn) if isinstance(n, ast.Assign) and norm(n.targets[0]) == "self.nb_of_instances"]
         if not writes:
             res.undecided.append(f"{q}: no write of self.nb_of_instances")
@@ -788,7 +790,7 @@ def r_sel(E):
                     why = SEL_ALLOWED[q]
             if why is not None:
                 if len(res.samples) < 6:
-                    res.samples.append({"site": f"{rel}:{n.lineno} {q}", "selection": norm(n)[:60],
+                    res.samples.append({"site": f"{rel}:{int(n.lineno)} {q}", "selection": norm(n)[:60],
                                         "singleton_because": why})
                 continue
             res.findings.append(Finding(
@@ -907,6 +909,10 @@ def _flow(fn):
                     walk(s.orelse, c2)
                     ctl = c2
                     continue
+                if isinstance(s, ast.Return) and s.value is not None:
+                    # which return executes is decided by the tests on the way to it
+                    dep["<return>"] = dep.get("<return>", set()) | names(s.value) | ctl
+                    continue
                 if isinstance(s, (ast.Assign, ast.AugAssign)):
                     src = names(s.value) | ctl
                     tg = s.targets if isinstance(s, ast.Assign) else [s.target]
@@ -942,12 +948,13 @@ def r_thread(E):
                                  "the builder it delegates to); every date_range starts at start_date and is hourly")
     rel, tree = pm.module_tree(TB)
     fns = {f.name: f for f in tree.body if isinstance(f, ast.FunctionDef)}
+    raw_fns = {f.name: f for f in pm.raw_module_tree(TB)[1].body if isinstance(f, ast.FunctionDef)}
     for name, fn in sorted(fns.items()):
         dep, params, names = _flow(fn)
         rets = [r for r in ast.walk(fn) if isinstance(r, ast.Return) and r.value is not None]
         if not rets:
             continue
-        flows = set()
+        flows = set(dep.get("<return>", set()))
         for r in rets:
             flows |= names(r.value)
         for p in sorted(params):
@@ -957,15 +964,17 @@ def r_thread(E):
                     "R-THREAD", f"{name} drops {p}",
                     f"{name}: parameter `{p}` does not reach the returned series: the builder ignores the requested "
                     f"{'start date' if p == 'start_date' else 'unit' if p == 'pint_unit' else p}", rel, fn.lineno, name))
-        # delegation through same-named parameters
-        for c in _calls(fn):
+        # delegation through same-named parameters (call sites as written: the canonical form may have replaced the
+        # call by the callee's body)
+        raw_fn = raw_fns.get(name, fn)
+        for c in _calls(raw_fn):
             if isinstance(c.func, ast.Name) and c.func.id in fns:
                 callee = fns[c.func.id]
                 cps = [a.arg for a in callee.args.args]
                 for i, a in enumerate(c.args):
                     if i < len(cps) and cps[i] in params:
                         res.instances += 1
-                        if norm(a) != cps[i]:
+                        if norm(a).split("__")[0] != cps[i]:      # (a local of an inlined helper is `<name>__<helper>`)
                             res.findings.append(Finding(
                                 "R-THREAD", f"{name} -> {c.func.id}({cps[i]}={norm(a)[:20]})",
                                 f"{name} passes `{norm(a)[:30]}` as {c.func.id}'s `{cps[i]}` although it has a parameter of "
@@ -973,7 +982,7 @@ def r_thread(E):
                 for k in c.keywords:
                     if k.arg in params:
                         res.instances += 1
-                        if norm(k.value) != k.arg:
+                        if norm(k.value).split("__")[0] != k.arg:
                             res.findings.append(Finding(
                                 "R-THREAD", f"{name} -> {c.func.id}({k.arg}={norm(k.value)[:20]})",
                                 f"{name} passes `{norm(k.value)[:30]}` as {c.func.id}'s `{k.arg}`", rel, c.lineno, name))
@@ -1092,7 +1101,7 @@ def r_zerocut(E):
                     f"quantity (a job that deletes data has data_stored < 0) takes the `nothing to compute` shortcut and "
                     f"its contribution disappears — only `== 0` / emptiness may short-circuit", rel, n.lineno, q))
             elif len(res.samples) < 4:
-                res.samples.append({"site": f"{rel}:{n.lineno} {q}", "under": [norm(t)[:50] for t in true] +
+                res.samples.append({"site": f"{rel}:{int(n.lineno)} {q}", "under": [norm(t)[:50] for t in true] +
                                     ["not " + norm(t)[:46] for t in false]})
     res.floor = 5     # 7 conditional empty values on the pinned tree
     return res
